@@ -9,6 +9,6 @@ git -C /repo archive HEAD | tar -x -C $D
 (cd $D && GOFLAGS=-mod=mod GOPROXY=off GOSUMDB=off GOTOOLCHAIN=local go build ./... ) || { echo "MUTANT DOES NOT BUILD"; exit 3; }
 cd "$(dirname "$0")/.."
 for c in ${CHECKS//,/ }; do
-  VERIF_REPO=$D ./check $c $TIER 2>&1 | grep -v "^\[verif\] built" | cut -c1-400 | tail -12
+  VERIF_REPO=$D ./check $c $TIER 2>&1 | grep -v "^\[verif\] built" | cut -c1-400 | tail -${TAILN:-12}
   echo "check=$c exit=${PIPESTATUS[0]}"
 done
